@@ -265,7 +265,7 @@ theorem np_stepPlayer (cfg : Cfg) (s s' : State) (i : Nat) (h : stepPlayer cfg s
       intro hm
       have := hcreat i (by rw [hm]; rfl); rw [pcAt_of_get hp] at this; simpa using this
     simp only at h
-    cases hpcv : p.pc <;> simp only [hpcv] at h <;> (try split at h) <;> (try cases h) <;>
+    cases hpcv : p.pc <;> simp only [hpcv] at h <;> (try split at h) <;> (try cases h) <;> (try split at h) <;> (try cases h) <;>
     (refine np_set inv hp rfl ?_ ?_
      · intro ⟨a, b, c, d⟩
        rcases loopHead_cases p with ⟨ht, hl⟩ | ⟨ht, hl⟩ <;>
@@ -498,7 +498,10 @@ theorem player_progress {cfg : Cfg} {script : List Cmd} {s : State} (hr : Reach 
         (try (exact absurd rfl hnew)) <;> (try (exact absurd rfl hdone)) <;>
         (try (exact absurd trivial hfa)) <;> (try (exact absurd trivial htf)) <;> (try rfl)
       · cases htodo : p.todo with
-        | nil => exact absurd htodo (hwr trivial)
+        | nil =>
+          rcases hwr trivial with hw | hw
+          · exact absurd htodo hw
+          · simp [hw]
         | cons c rest => rfl
       · simp [hgo trivial]
 
@@ -634,7 +637,7 @@ theorem stepPlayer_afterLoop (cfg : Cfg) (s s' : State) (i : Nat) (h : stepPlaye
   · cases h
   · rename_i p hp
     simp only at h
-    cases hpcv : p.pc <;> simp only [hpcv] at h <;> (try split at h) <;> (try cases h) <;>
+    cases hpcv : p.pc <;> simp only [hpcv] at h <;> (try split at h) <;> (try cases h) <;> (try split at h) <;> (try cases h) <;>
       (refine ⟨p, _, hp, rfl, rfl, ?_⟩) <;> (try split) <;> simp [afterLoop, hpcv]
 
 theorem gc_set {s : State} {i : Nat} {p p' : Player}
